@@ -47,6 +47,7 @@ class MonEnd(ChanEnd):
         super().__init__(*a)
         self.waiting = False  # only touched with self._rd.cv held
         self.on_wait = None  # callable, invoked (pipe lock held) each time recv() is about to park
+        self.nrecv = 0  # recv() calls that returned data (progress counter)
 
     def recv(self, n):
         d = self._rd
@@ -75,6 +76,7 @@ class MonEnd(ChanEnd):
                 k = max(1, min(n, self.wire.frag(n, len(d.buf))))
             out = bytes(d.buf[:k])
             del d.buf[:k]
+            self.nrecv += 1
             return out
 
 
@@ -98,6 +100,17 @@ class Monitor:
         self.processed = 0
         self.handle_reads = 0
         self.short = None  # callable(length) -> max bytes, or None
+        # scripted application faults: method name -> [exception factory, remaining raises]
+        # methods: handle close/read/write/stat/chattr, interface "si.<method>"
+        self.faults = {}
+        self.faults_raised = 0
+
+    def fault(self, method):
+        f = self.faults.get(method)
+        if f and f[1] > 0:
+            f[1] -= 1
+            self.faults_raised += 1
+            raise f[0]()
 
     def begin(self, t, rid):
         self.cur = dict(t=t, id=rid, reads=[], per={}, spin=False)
@@ -135,7 +148,31 @@ class Monitor:
 
 
 class ReadLogHandle(BenchHandle):
+    """Logs reads; every application-level method can be scripted to raise (Monitor.faults)."""
+
+    def _fault(self, method):
+        mon = self.si.kw.get("mon")
+        if mon is not None:
+            mon.fault(method)
+
+    def close(self):
+        self._fault("close")
+        return super().close()
+
+    def write(self, offset, data):
+        self._fault("write")
+        return super().write(offset, data)
+
+    def stat(self):
+        self._fault("stat")
+        return super().stat()
+
+    def chattr(self, attr):
+        self._fault("chattr")
+        return super().chattr(attr)
+
     def read(self, offset, length):
+        self._fault("read")
         mon = self.si.kw.get("mon")
         want = length
         if mon is not None and mon.short is not None and length > 0:
@@ -148,6 +185,35 @@ class ReadLogHandle(BenchHandle):
 
 class MonDirServer(DirServer):
     handle_cls = ReadLogHandle
+
+    def _fault(self, method):
+        mon = self.kw.get("mon")
+        if mon is not None:
+            mon.fault("si." + method)
+
+    def stat(self, path):
+        self._fault("stat")
+        return super().stat(path)
+
+    def lstat(self, path):
+        self._fault("lstat")
+        return super().lstat(path)
+
+    def open(self, path, flags, attr):
+        self._fault("open")
+        return super().open(path, flags, attr)
+
+    def list_folder(self, path):
+        self._fault("list_folder")
+        return super().list_folder(path)
+
+    def remove(self, path):
+        self._fault("remove")
+        return super().remove(path)
+
+    def chattr(self, path, attr):
+        self._fault("chattr")
+        return super().chattr(path, attr)
 
 
 class MonBench(Bench):
